@@ -36,6 +36,8 @@ impl ConfigError { #[verifier::external_body] pub fn to_string(&self) -> String 
 impl ClusterConfig {
     // out of reach (str::parse over a dozen fields): any result, self arbitrary afterwards
     #[verifier::external_body] pub fn set_field(&mut self, k: &String, v: &String) -> Result<(), ConfigError> { unimplemented!() }
+    // not called by the functions under contract in the repository text; any map
+    #[verifier::external_body] pub fn to_str_map(&self) -> HashMap<String, String> { unimplemented!() }
 }
 impl ClusterStore {
     // out of reach (iterator any() chain); only its boolean result is used
